@@ -10,3 +10,4 @@ from . import split  # noqa: F401
 from . import format  # noqa: F401
 from . import intersect  # noqa: F401
 from . import traffic  # noqa: F401
+from . import codec  # noqa: F401
